@@ -239,6 +239,23 @@ example : (evolve cfg2 ((startup cfg2 3 1 wOld2 [5, 4, 1]).1, [5, 4, 1]) [.reorg
       subst this
       exact .cons ⟨by decide, by decide⟩ (.nil _ _))).2
 
+/-- **Blocks arriving while the start-up rescan is in flight** (`startupDuring`, `during` ≠ []), the case C15 speaks
+    about: nothing to catch up (the backend's chain at the time of the rescan request is the wallet's own), any number
+    of blocks `br` connected before `RescanFinished` is processed, any notification order: start-up succeeds and the
+    wallet is in sync with the extended chain.  (`during = []` for ANY backend chain is `C15_startup_establishes_inv`.) -/
+theorem C15_startup_blocks_during_rescan (cfg : Cfg) (hW : 1 ≤ cfg.W) {w : Wallet} {old : BlockId} {lo : Nat}
+    (hS : StoppedInv cfg w old lo) (batch : Nat) (m : TxMode) (br : List Nat) :
+    ∃ w', startupDuring cfg 0 batch w old (connectBranch cfg.C m old br) = (w', true) ∧
+      Inv cfg w' (br.reverse ++ old) (loAfterN cfg.W lo old.length br.length) :=
+  startup_blocks_during_rescan cfg hW hS batch m br
+
+/-- With something to catch up, a block that arrives during the rescan is lost until the next notification: the
+    wallet (at `[1]`) restarts against `[2,1]`, block `[3,2,1]` is connected before `RescanFinished(height 2)`;
+    `connectBlock` fails (height 2 not yet remembered), `catchUpHashes` stops at height 2.  This is the race the TODO
+    in `catchUpHashes` documents; DESIGN §6 C15 puts it outside the property (explored by the engine, not flagged). -/
+example : (startupDuring cfg0 0 2000 (evolve cfg0 (genesisWallet C0, []) [.extend 1 .after]).1 [2, 1]
+      (connectNtfns C0 .after [3, 2, 1])).1.syncedTo = stampOf C0 [2, 1] := by decide
+
 /-! ### The wallet's own notification stream (`wallet.NtfnServer`, `TransactionNotifications`)
 
 `evolveN` runs the evolution with the modelled `NotificationServer` (`NSrv`: `currentTxNtfn` + what was delivered to
